@@ -14,9 +14,11 @@ pub mod c06;
 pub mod c07;
 pub mod c08;
 pub mod c09;
+pub mod c10;
 pub mod c14;
 pub mod c15;
 pub mod c18;
+pub mod c19;
 
 macro_rules! table {
     ($($m:ident :: $f:ident),* $(,)?) => {
@@ -53,6 +55,13 @@ table! {
     c09::h_cuts,
     c09::h_chunks,
     c09::h_malformed,
+    c19::h_pkgpath_any,
+    c19::h_pkgpath_segments,
+    c19::h_depend,
+    c10::h_roundtrip_text,
+    c10::h_roundtrip_api,
+    c10::h_classify,
+    c10::h_lines,
     c03::h_laws2,
     c03::h_trans,
     c03::h_api_laws,
